@@ -1,8 +1,12 @@
 package composite
 
 import (
+	"encoding/json"
 	"fmt"
-	"os"
+	"net/http"
+	"reflect"
+	"sort"
+	"strings"
 	"sync"
 	"testing"
 
@@ -11,106 +15,279 @@ import (
 	vh "metacontroller/pkg/internal/verifh"
 )
 
-// TestVerif_C17_Race: several workers sync distinct parents that share the
-// child, revision and related informers, with a rolling strategy (parallel
-// per-revision hook calls). Meaningful under `go test -race` (thorough tier);
-// without the race detector it still checks that concurrent syncs of distinct
-// parents leave the store as the same syncs run one after another do.
-func TestVerif_C17_Race(t *testing.T) {
+// TestVerif_C17r: several workers sync distinct parents of one controller that
+// share the parent, child, revision and related informers, with a rolling
+// strategy (parallel per-revision hook and customize calls) and customize
+// answers that make every parent register related kinds the others look up.
+//
+// Each case runs the same world twice: the syncs of a round one after another,
+// and the syncs of a round concurrently. Recorded per case: the projected store
+// after both runs (C17_schedules_agree: every interleaving gives each sync what
+// it gets alone), whether a hook call for parent p carried state of another
+// parent, and whether an object held by a shared informer cache changed.
+// The driver runs this test under `go test -race` in both tiers.
+var c17rKinds = []struct{ av, res string }{
+	{"v1", "namespaces"}, {"apps.example.com/v1", "widgets"}, {"v1", "pods"},
+	{"ctl.example.com/v1", "clusterthings"}, {"ctl.example.com/v1", "things"},
+}
+
+type c17rOut struct {
+	Store        []string
+	Foreign      []string // hook calls that saw another parent's state
+	CacheMutated []string
+	Panics       []string
+}
+
+func c17rApp(p int) string { return fmt.Sprintf("app%d", p) }
+
+func c17rRun(t *testing.T, sc *scenario, nparents int, concurrent bool) c17rOut {
+	var out c17rOut
+	var omu sync.Mutex
+	w := newWorld()
+	defer w.close()
+	inner := sc.hookFunc(w)
+	hookTransport.Set(func(url string, hdr http.Header, req map[string]interface{}) (int, map[string]string, []byte, bool) {
+		parent, _ := req["parent"].(map[string]interface{})
+		pmd, _ := parent["metadata"].(map[string]interface{})
+		pname, _ := pmd["name"].(string)
+		var pidx int
+		fmt.Sscanf(pname, "p%d", &pidx)
+		app := c17rApp(pidx)
+		if strings.HasSuffix(url, "/customize") {
+			// parent i asks for three of the five kinds, rotated: every pair of parents overlaps
+			var rules []string
+			for j := 0; j < 3; j++ {
+				k := c17rKinds[(pidx+j)%len(c17rKinds)]
+				rules = append(rules, fmt.Sprintf(`{"apiVersion":%q,"resource":%q,"labelSelector":{"matchLabels":{"app":%q}}}`, k.av, k.res, app))
+			}
+			return 200, map[string]string{}, []byte(`{"relatedResources":[` + strings.Join(rules, ",") + `]}`), false
+		}
+		// what the hook is shown must be this parent's: children and related objects carry its app label
+		for _, group := range []string{"children", "related"} {
+			gm, _ := req[group].(map[string]interface{})
+			for gk, objs := range gm {
+				om, _ := objs.(map[string]interface{})
+				for name, o := range om {
+					obj, _ := o.(map[string]interface{})
+					md, _ := obj["metadata"].(map[string]interface{})
+					labels, _ := md["labels"].(map[string]interface{})
+					if labels["app"] != app {
+						omu.Lock()
+						out.Foreign = append(out.Foreign, fmt.Sprintf("%s: %s %s/%s has app=%v", pname, group, gk, name, labels["app"]))
+						omu.Unlock()
+					}
+				}
+			}
+		}
+		code, h, body, ne := inner(url, hdr, req)
+		// children are named after their parent so that the parents do not collide
+		var resp map[string]interface{}
+		if json.Unmarshal(body, &resp) == nil {
+			if cl, ok := resp["children"].([]interface{}); ok {
+				for _, c := range cl {
+					cm, _ := c.(map[string]interface{})
+					md, _ := cm["metadata"].(map[string]interface{})
+					if md == nil {
+						continue
+					}
+					md["name"] = fmt.Sprintf("%s-%v", pname, md["name"])
+					md["labels"] = map[string]interface{}{"app": app}
+				}
+				body, _ = json.Marshal(resp)
+			}
+		}
+		return code, h, body, ne
+	})
+	var keys []string
+	for p := 0; p < nparents; p++ {
+		parent := runtime.DeepCopyJSON(sc.Parent)
+		md := parent["metadata"].(map[string]interface{})
+		md["name"] = fmt.Sprintf("p%d", p)
+		md["generation"] = int64(1)
+		spec := parent["spec"].(map[string]interface{})
+		spec["selector"] = J{"matchLabels": J{"app": c17rApp(p)}}
+		spec["template"] = J{"metadata": J{"labels": J{"app": c17rApp(p)}}}
+		w.srv.Seed(parent)
+		keys = append(keys, parentKey(parent))
+		// a related object per parent and kind
+		for _, ns := range []string{"ns1"} {
+			w.srv.Seed(J{"apiVersion": "apps.example.com/v1", "kind": "Widget", "metadata": J{"name": fmt.Sprintf("rel-w%d", p), "namespace": ns, "labels": J{"app": c17rApp(p)}}, "spec": J{}})
+			w.srv.Seed(J{"apiVersion": "v1", "kind": "Pod", "metadata": J{"name": fmt.Sprintf("rel-p%d", p), "namespace": ns, "labels": J{"app": c17rApp(p)}}, "spec": J{}})
+		}
+		w.srv.Seed(J{"apiVersion": "v1", "kind": "Namespace", "metadata": J{"name": fmt.Sprintf("rel-n%d", p), "labels": J{"app": c17rApp(p)}}})
+	}
+	round := func(conc bool) {
+		w.freezeViews()
+		b, err := w.buildPC(&sc.Ctl)
+		if err != nil {
+			t.Fatal(err)
+		}
+		defer b.close()
+		// fingerprint of what the shared caches hold
+		type held struct {
+			ptr  interface{}
+			copy map[string]interface{}
+		}
+		var fp []held
+		for _, ci := range b.pc.childInformers {
+			for _, o := range ci.Informer().GetIndexer().List() {
+				u := o.(interface{ UnstructuredContent() map[string]interface{} })
+				fp = append(fp, held{o, runtime.DeepCopyJSON(u.UnstructuredContent())})
+			}
+		}
+		for _, o := range b.pc.parentInformer.Informer().GetIndexer().List() {
+			u := o.(interface{ UnstructuredContent() map[string]interface{} })
+			fp = append(fp, held{o, runtime.DeepCopyJSON(u.UnstructuredContent())})
+		}
+		revBefore := b.revDump()
+		one := func(k string) {
+			defer func() {
+				if r := recover(); r != nil {
+					omu.Lock()
+					out.Panics = append(out.Panics, fmt.Sprint(k, ": ", r))
+					omu.Unlock()
+				}
+			}()
+			_ = b.pc.sync(k)
+		}
+		if conc {
+			var wg sync.WaitGroup
+			for _, k := range keys {
+				wg.Add(1)
+				go func(k string) { defer wg.Done(); one(k) }(k)
+			}
+			wg.Wait()
+		} else {
+			for _, k := range keys {
+				one(k)
+			}
+		}
+		for _, h := range fp {
+			u := h.ptr.(interface{ UnstructuredContent() map[string]interface{} })
+			if !reflect.DeepEqual(u.UnstructuredContent(), h.copy) {
+				out.CacheMutated = append(out.CacheMutated, objKey(h.copy))
+			}
+		}
+		if !reflect.DeepEqual(revBefore, b.revDump()) {
+			out.CacheMutated = append(out.CacheMutated, "controllerrevision cache")
+		}
+	}
+	round(false) // first generation: revisions and children come into being
+	for _, o := range w.srv.AllLive() {
+		if o["kind"] == sc.Ctl.ParentKind {
+			o["spec"].(map[string]interface{})["image"] = "v2"
+			delete(o["metadata"].(map[string]interface{}), "resourceVersion")
+			w.srv.Seed(o)
+		}
+	}
+	for r := 0; r < 3; r++ {
+		round(concurrent)
+	}
+	out.Store = projectStore(w.srv.AllLive())
+	return out
+}
+
+// projectStore drops what legitimately differs between runs (uids, resourceVersions, timestamps).
+func projectStore(objs []J) []string {
+	var out []string
+	for _, o := range objs {
+		md, _ := o["metadata"].(map[string]interface{})
+		labels, _ := md["labels"].(map[string]interface{})
+		spec, _ := o["spec"].(map[string]interface{})
+		owner := ""
+		if refs, ok := md["ownerReferences"].([]interface{}); ok {
+			for _, r := range refs {
+				if rm, ok := r.(map[string]interface{}); ok {
+					owner += fmt.Sprint(rm["kind"], "/", rm["name"], ";")
+				}
+			}
+		}
+		extra := ""
+		if o["kind"] == "ControllerRevision" {
+			// the order of names within a revision follows Go map iteration
+			kids := runtime.DeepCopyJSONValue(o["children"])
+			if kl, ok := kids.([]interface{}); ok {
+				for _, k := range kl {
+					if km, ok := k.(map[string]interface{}); ok {
+						if names, ok := km["names"].([]interface{}); ok {
+							sort.Slice(names, func(i, j int) bool { return fmt.Sprint(names[i]) < fmt.Sprint(names[j]) })
+						}
+					}
+				}
+				sort.Slice(kl, func(i, j int) bool { return fmt.Sprint(kl[i]) < fmt.Sprint(kl[j]) })
+			}
+			js, _ := json.Marshal(kids)
+			extra = string(js)
+		}
+		// which unhappy child a RolloutWaiting message names depends on map order
+		status := runtime.DeepCopyJSONValue(o["status"])
+		if sm, ok := status.(map[string]interface{}); ok {
+			if conds, ok := sm["conditions"].([]interface{}); ok {
+				for _, c := range conds {
+					if cm, ok := c.(map[string]interface{}); ok {
+						delete(cm, "message")
+					}
+				}
+			}
+		}
+		st, _ := json.Marshal(status)
+		out = append(out, fmt.Sprint(objKey(o), " app=", labels["app"], " image=", spec["image"], " owner=", owner, " fin=", md["finalizers"], " ", extra, " status=", string(st)))
+	}
+	sort.Strings(out)
+	return out
+}
+
+func TestVerif_C17r(t *testing.T) {
 	env := vh.GetEnv()
 	if env.OutDir == "" {
 		t.Skip("VERIF_OUT not set")
 	}
-	if env.Tier != "thorough" && os.Getenv("VERIF_C17_RACE") == "" {
-		t.Skip("race scenario runs in the thorough tier")
+	header := "From MC Require Import Check.C17r_check.\nOpen Scope string_scope.\n"
+	w, err := vh.NewCaseWriter(env.OutDir, "C17r", header, 40)
+	if err != nil {
+		t.Fatal(err)
+	}
+	n := env.N
+	if n == 0 {
+		n = 6
 	}
 	root := vh.NewRng(env.Seed ^ 0xc17)
-	for iter := 0; iter < 8; iter++ {
-		r, seed := root.Fork()
-		g := &gen{r: r}
-		run := func(concurrent bool) []J {
+	for iter := 0; iter < n; iter++ {
+		_, seed := root.Fork()
+		nparents := 3 + iter%3
+		mk := func() *scenario {
+			g := &gen{r: vh.NewRng(seed)}
 			sc := g.rollout(iter, seed, true)
 			sc.Ctl.Name = fmt.Sprintf("race%d", iter%3)
 			sc.Ctl.Customize = true
-			sc.Hook.CustomizeBody = `{"relatedResources":[{"apiVersion":"v1","resource":"namespaces"},{"apiVersion":"apps.example.com/v1","resource":"widgets","labelSelector":{}}]}`
-			w := newWorld()
-			defer w.close()
-			hookTransport.Set(sc.hookFunc(w))
-			var keys []string
-			for p := 0; p < 3; p++ {
-				parent := runtime.DeepCopyJSON(sc.Parent)
-				md := parent["metadata"].(map[string]interface{})
-				md["name"] = fmt.Sprintf("p%d", p)
-				parent["spec"].(map[string]interface{})["selector"] = J{"matchLabels": J{"app": fmt.Sprintf("app%d", p)}}
-				parent["spec"].(map[string]interface{})["template"] = J{"metadata": J{"labels": J{"app": fmt.Sprintf("app%d", p)}}}
-				w.srv.Seed(parent)
-				keys = append(keys, parentKey(parent))
+			sc.Ctl.ParentNamespaced, sc.Ctl.ParentResource, sc.Ctl.ParentKind = true, "things", "Thing"
+			sc.Parent["kind"] = "Thing"
+			sc.Parent["metadata"].(J)["namespace"] = "ns1"
+			for _, c := range sc.Hook.Children {
+				delete(c["metadata"].(J), "namespace")
 			}
-			// a spec change so that two revisions (two parallel hook and customize calls) are live
-			for round0 := 0; round0 < 1; round0++ {
-				w.freezeViews()
-				b, err := w.buildPC(&sc.Ctl)
-				if err != nil {
-					t.Fatal(err)
-				}
-				for _, k := range keys {
-					func() {
-						defer func() { recover() }()
-						_ = b.pc.sync(k)
-					}()
-				}
-				b.close()
-			}
-			for _, o := range w.srv.AllLive() {
-				if o["kind"] == sc.Ctl.ParentKind {
-					o["spec"].(map[string]interface{})["image"] = "v2"
-					delete(o["metadata"].(map[string]interface{}), "resourceVersion")
-					w.srv.Seed(o)
-				}
-			}
-			for round := 0; round < 3; round++ {
-				w.freezeViews()
-				b, err := w.buildPC(&sc.Ctl)
-				if err != nil {
-					t.Fatal(err)
-				}
-				if concurrent {
-					var wg sync.WaitGroup
-					for _, k := range keys {
-						wg.Add(1)
-						go func(k string) {
-							defer wg.Done()
-							defer func() { recover() }()
-							_ = b.pc.sync(k)
-						}(k)
-					}
-					wg.Wait()
-				} else {
-					for _, k := range keys {
-						func() {
-							defer func() { recover() }()
-							_ = b.pc.sync(k)
-						}()
-					}
-				}
-				b.close()
-			}
-			return w.srv.AllLive()
+			return sc
 		}
-		seq := projectStore(run(false))
-		// the same generator state is needed for the second run
-		g.r = vh.NewRng(seed)
-		_ = seq
-		conc := projectStore(run(true))
-		_ = conc
+		seq := c17rRun(t, mk(), nparents, false)
+		conc := c17rRun(t, mk(), nparents, true)
+		id := fmt.Sprintf("s%d", iter)
+		def := fmt.Sprintf("mkC17r %s %s %s %s %s", vh.CoqStringList(seq.Store), vh.CoqStringList(conc.Store),
+			vh.CoqStringList(append(seq.Foreign, conc.Foreign...)), vh.CoqStringList(append(seq.CacheMutated, conc.CacheMutated...)),
+			vh.CoqStringList(append(seq.Panics, conc.Panics...)))
+		replay := J{"seed": seed, "iter": iter, "parents": nparents, "serial": seq, "concurrent": conc,
+			"features": []string{fmt.Sprintf("parents-%d", nparents)}}
+		if err := w.Add(id, def, "C17r_check", replay); err != nil {
+			t.Fatal(err)
+		}
+		w.Count(fmt.Sprintf("parents-%d", nparents))
+		w.Count("concurrent-rounds")
+		w.Count("concurrent-rounds")
+		w.Count("concurrent-rounds")
+		if len(conc.Store) > nparents {
+			w.NonTrivial(vh.Sig(iter, nparents, len(conc.Store)))
+		}
 	}
-}
-
-// projectStore drops what legitimately differs between runs (uids, resourceVersions).
-func projectStore(objs []J) []string {
-	var out []string
-	for _, o := range objs {
-		out = append(out, objKey(o))
+	if err := w.Close(nil); err != nil {
+		t.Fatal(err)
 	}
-	return out
 }
